@@ -3,7 +3,7 @@
    rounds the two uint32_t words, little-endian.  Printed by the model driver next to the bytes the C
    driver reads from ctx->sk, so that the transcription of DES_set_key_unchecked is compared with the
    code on every run (not only through the cipher's output).  Definitions only. *)
-From MV Require Export C12.Modes C12.Impl_DES.
+From MV Require Export C12.Modes C12.Impl_DES C12.Impl_AES.
 Local Open Scope N_scope.
 
 Definition le32 (n : N) : list N :=
@@ -22,4 +22,12 @@ Definition impl_tdes_ctx_bytes (o : op) (m : mode) (k1 k2 k3 : list N) : list N 
     if is_enc o then ks_bytes (impl_gen_subkeys false k1) ++ ks_bytes (impl_gen_subkeys true k2) ++ ks_bytes (impl_gen_subkeys false k3)
     else ks_bytes (impl_gen_subkeys true k3) ++ ks_bytes (impl_gen_subkeys false k2) ++ ks_bytes (impl_gen_subkeys true k1)
   | _ => ks_bytes (impl_gen_subkeys false k1) ++ ks_bytes (impl_gen_subkeys true k2) ++ ks_bytes (impl_gen_subkeys false k3)
+  end.
+
+(* muggle_aes_set_key: ctx->sk.rd_key viewed as bytes, (rounds + 1) * 16 of them (the uint64_t words of
+   openssl_key_expansion in memory order) *)
+Definition impl_aes_ctx_bytes (bits : N) (key : list N) : list N :=
+  match impl_aes_set_key bits key with
+  | Some sk => flat_map le64 (fst sk)
+  | None => []
   end.
